@@ -423,7 +423,9 @@ def FormOut (cfg : Cfg) (x ts : Nat) (B : Int) (st : NetStation) (n' : Net) (c :
      (c.tx = none ∨ c.tx = some (selfToken ts) ∨ ∃ a, a ≠ ts ∧ a < st.s.p.hsa ∧ c.tx = some (statusRequestBytes a ts) ∧ stage' = .await a ∧ l' = now + (cfg.b66 : Nat)) ∧
      max now (l' + ((stage'.wait cfg : Nat) : Int)) + ((stage'.rest cfg ts st.s.p.hsa : Nat) : Int) ≤ B ∧
      (c.tx = none → l' = l0 ∧ max now (l' + ((stage'.wait cfg : Nat) : Int)) + ((stage'.slack cfg : Nat) : Int) ≤ Φ) ∧
-     (c.tx ≠ none → now ≤ l'))
+     (c.tx ≠ none → now ≤ l') ∧
+     (c.s.st = .claimToken .secondToken → st.s.st = .claimToken .secondToken ∧ c.tx = none) ∧
+     (c.tx = some (selfToken ts) → st.s.st = .claimToken .secondToken) ∧ c.s.pendingBytes = st.s.pendingBytes)
 
 /-- **One poll of the lone claimant**: it happens no later than `max(last poll, stamp + wait) + P`; the station
 either completes the formation of its one-station ring (token to itself, `UseToken`) or is in the next stage
@@ -459,7 +461,7 @@ theorem form_step {cfg : Cfg} {n : Net} {x : Nat} {st : NetStation} {l : Int} (h
     intro n' hS hw
     unfold FormOut
     exact Or.inr ⟨stage, l, by rw [hup]; exact hS, hs, hv, rfl, .inl rfl, by omega, fun _ => ⟨rfl, by omega⟩,
-      fun h => absurd rfl h⟩
+      fun h => absurd rfl h, fun h => ⟨h, rfl⟩, (fun h => by cases h), rfl⟩
   by_cases hle : now ≤ l
   · obtain ⟨n', hp, hS, hseen⟩ := solo_ongoing h hr now hown hle hno.1 hno.2
     exact ⟨n', _, hp, hseen, by omega, same n' hS (by omega)⟩
@@ -507,7 +509,8 @@ theorem form_step {cfg : Cfg} {n : Net} {x : Nat} {st : NetStation} {l : Int} (h
         (fun b hb => by cases hb)
       refine ⟨n', hp, hseen, ?_⟩
       unfold FormOut
-      refine Or.inr ⟨.done, l, hS, ⟨rfl, 0, rfl⟩, hv, rfl, .inl rfl, ?_, fun _ => ⟨rfl, ?_⟩, fun h => absurd rfl h⟩
+      refine Or.inr ⟨.done, l, hS, ⟨rfl, 0, rfl⟩, hv, rfl, .inl rfl, ?_, fun _ => ⟨rfl, ?_⟩, fun h => absurd rfl h,
+        (fun h => by cases h), (fun h => by cases h), rfl⟩
       · simp only [SStage.wait, SStage.rest]
         rw [hrem] at hBud
         push_cast at hBud ⊢
@@ -533,7 +536,11 @@ theorem form_step {cfg : Cfg} {n : Net} {x : Nat} {st : NetStation} {l : Int} (h
       refine ⟨n', hp, hseen, ?_⟩
       unfold FormOut
       refine Or.inr ⟨.await a, now + (cfg.b66 : Nat), hS, ⟨rfl, rfl⟩, hv, rfl, .inr (.inr ⟨a, hne, ha, rfl, rfl, rfl⟩), ?_,
-        (fun h => by cases h), (fun _ => by omega)⟩
+        (fun h => by cases h), (fun _ => by omega), (fun h => by cases h),
+        (fun h => by
+          have := congrArg List.length (Option.some.inj h)
+          rw [statusRequestBytes_length] at this
+          exact absurd this (by show ¬ (6 = 3); decide)), rfl⟩
       simp only [SStage.wait, SStage.rest]
       rw [← hrem, Nat.add_mul, Nat.one_mul] at hBud
       unfold Cfg.sweepStep at hBud ⊢
@@ -561,7 +568,7 @@ theorem form_step {cfg : Cfg} {n : Net} {x : Nat} {st : NetStation} {l : Int} (h
     refine ⟨n', _, hp, hseen, hnP, ?_⟩
     unfold FormOut
     refine Or.inr ⟨.scan st.s.p.address, now + (cfg.b33 : Nat), hS, ⟨rfl, rfl⟩, ringView_claim hv, rfl, .inr (.inl rfl), ?_,
-      (fun h => by cases h), (fun _ => by omega)⟩
+      (fun h => by cases h), (fun _ => by omega), (fun h => by cases h), fun _ => hs, rfl⟩
     simp only [SStage.wait, SStage.rest]
     push_cast at hB ⊢
     omega
@@ -622,7 +629,8 @@ theorem form_step {cfg : Cfg} {n : Net} {x : Nat} {st : NetStation} {l : Int} (h
       (fun b hb => by cases hb)
     refine ⟨n', _, hp, hseen, hnP, ?_⟩
     unfold FormOut
-    refine Or.inr ⟨.pass, l, hS, rfl, hv, rfl, .inl rfl, ?_, fun _ => ⟨rfl, ?_⟩, fun h => absurd rfl h⟩
+    refine Or.inr ⟨.pass, l, hS, rfl, hv, rfl, .inl rfl, ?_, fun _ => ⟨rfl, ?_⟩, fun h => absurd rfl h,
+      (fun h => by cases h), (fun h => by cases h), rfl⟩
     · simp only [SStage.wait, SStage.rest]
       push_cast at hB ⊢
       omega
@@ -709,7 +717,7 @@ theorem solo_forms {cfg : Cfg} (hok : cfg.Ok) (x ts hsa : Nat) (B : Int) :
     obtain ⟨n', c, hp, hseen, hnow, hout⟩ := form_step h hok stage hs hv B now hlt hle hB
     have hrg := SStage.rest_ge cfg st.s.p.address st.s.p.hsa stage
     refine ⟨n', c, hp, by omega, ?_, ?_⟩
-    · rcases hout with ⟨-, b, -⟩ | ⟨_, _, -, -, -, -, b, -, -, -⟩
+    · rcases hout with ⟨-, b, -⟩ | ⟨_, _, -, -, -, -, b, -, -, -, -⟩
       · exact .inr (.inl b)
       · rcases b with b | b | ⟨a, b1, -, b3, -⟩
         · exact .inl b
